@@ -12,6 +12,16 @@ P = PA + "::"
 from lib.flow import short, strip_generics  # noqa: F401
 
 
+def movers(F):
+    """the Parser methods that advance the token position (write Parser.pos): `bump` and any sibling a refactoring adds"""
+    out = []
+    for p_, f in sorted(F.fns.items()):
+        if p_.startswith(P) and f.blocks and "{closure" not in p_:
+            if any(e["field"] == "pos" and e["how"] == "assign" for e in EF.field_effects(f, PA)):
+                out.append(p_)
+    return out
+
+
 def sig(fn):
     """sorted (field, how, callee) triples of a function's accesses to Parser fields"""
     out = []
@@ -59,43 +69,42 @@ def event_pushes(fn):
     return sorted(out)
 
 
-def check_model(F, res, rule="M"):
-    """obligations that the leaf primitives match the model used by engine P"""
+def check_model(F, res, rule="M", with_fuel=True):
+    """obligations that the leaf primitives match the model used by engine P. with_fuel=False leaves out everything
+    about the progress guard (C01 does not depend on it: a change to the fuel bookkeeping is C02's business)."""
+    def nofuel(x):
+        return sorted(e for e in x if with_fuel or e[0] != "fuel")
+    bump_is_mover = (P + "bump") in movers(F)
     for leaf, want in sorted(EXPECT.items()):
         fn = F.fn(P + leaf)
         got = sig(fn)
+        if leaf == "bump" and not bump_is_mover:
+            continue        # bump delegates to another mover: checked as a wrapper below
         res.ob(rule, "leaf/%s/field-accesses" % leaf,
-               "Parser::%s touches exactly the Parser fields the model assumes: %s" % (leaf, want),
-               got == sorted(want), where=fn.loc(), how="found %s" % got)
-    # ---- bump: assert !eof, refill fuel, exactly one Advance, pos += 1, all on the single non-panicking path
-    bump = F.fn(P + "bump")
-    d = FL.Defs(bump)
-    nobackedge = not bump.back_edges()
-    pos_w = [e for e in EF.field_effects(bump, PA) if e["field"] == "pos" and e["how"] == "assign"]
-    ok_inc = False
-    for e in pos_w:
-        o = d.origin_rv(e["rv"], None, e["bb"], 0, ())
-        base = o
-        while base.get("k") == "field":
-            base = base["base"]
-        if base.get("k") == "rv" and base["rv"]["k"] == "bin" and base["rv"]["op"] == "AddWithOverflow":
-            a, b_ = base["rv"]["a"], base["rv"]["b"]
-            pa = op_place(a)
-            if pa is not None and EF.field_of(pa, PA) and EF.field_of(pa, PA)[1] == "pos" and \
-                    "k" in b_ and str(b_["k"].get("bits")) == "1":
-                ok_inc = True
-    res.ob(rule, "bump/pos-plus-one", "Parser::bump advances pos by exactly 1, once, on a loop-free path",
-           ok_inc and len(pos_w) == 1 and nobackedge and all(bump.dominates(e["bb"], r) for e in pos_w for r in bump.return_blocks()),
-           where=bump.loc(), how="pos writes: %d, AddWithOverflow(pos,1): %s, loop-free: %s" % (len(pos_w), ok_inc, nobackedge))
-    ev = event_pushes(bump)
-    push_bbs = [b for b, t in bump.calls() if short(callee(t)) == "Vec::push"]
-    res.ob(rule, "bump/one-advance", "Parser::bump pushes exactly one Event::Advance on every returning path",
-           ev == [("Vec::push", "Advance")] and all(bump.dominates(b, r) for b in push_bbs for r in bump.return_blocks()),
-           where=bump.loc(), how="event writes %s" % ev)
-    gs = FL.gates(F, bump, bump.return_blocks(), d)
-    eofg = [g for g in gs if g.get("callee") == P + "eof" and g["allowed"] == [False]]
-    res.ob(rule, "bump/asserts-not-eof", "Parser::bump returns only if eof() was false (the assert!(!self.eof()) engine P models)",
-           bool(eofg), where=bump.loc(), how="gates %s" % [FL.gate_summary(g) for g in gs])
+               "Parser::%s touches exactly the Parser fields the model assumes: %s" % (leaf, nofuel(want)),
+               nofuel(got) == nofuel(want), where=fn.loc(), how="found %s" % nofuel(got))
+    for mv in movers(F):
+        if mv != P + "bump":
+            check_mover(F, res, rule, mv, with_fuel)
+    if bump_is_mover:
+        check_mover(F, res, rule, P + "bump", with_fuel)
+    else:
+        bump = F.fn(P + "bump")
+        d = FL.Defs(bump)
+        mv = set(movers(F))
+        calls = [b for b, t in bump.calls() if callee(t) in mv]
+        rets = bump.return_blocks()
+        res.ob(rule, "bump/consumes-once", "Parser::bump consumes exactly one token: it calls one position-moving method once, on every returning "
+               "path, outside any loop", len(calls) == 1 and not bump.back_edges() and all(bump.dominates(calls[0], r) for r in rets),
+               where=bump.loc(), how="calls of %s: %d" % (sorted(x.rsplit("::", 1)[-1] for x in mv), len(calls)))
+        gs = FL.gates(F, bump, rets, d)
+        eofg = [g for g in gs if g.get("callee") == P + "eof" and g["allowed"] == [False]]
+        res.ob(rule, "bump/asserts-not-eof", "Parser::bump returns only if eof() was false (the assert!(!self.eof()) engine P models)",
+               bool(eofg), where=bump.loc(), how="gates %s" % [FL.gate_summary(g) for g in gs])
+        if with_fuel:
+            sets = [e for e in EF.field_effects(bump, PA) if e["field"] == "fuel" and short(e.get("callee") or "") == "Cell::set"]
+            res.ob(rule, "bump/refills-fuel", "Parser::bump refills the progress guard's fuel", bool(sets) and all(bump.dominates(e["bb"], r) for e in sets for r in rets),
+                   where=bump.loc(), how="fuel.set calls: %d" % len(sets))
     # ---- nth: returns tokens.get(pos + lookahead).map_or(EOF, kind); panics iff fuel == 0; burns one fuel
     nth = F.fn(P + "nth")
     dn = FL.Defs(nth)
@@ -180,18 +189,63 @@ def check_model(F, res, rule="M"):
            where=fin.loc(), how="origin is parameter 3" if okk else "not the parameter")
 
 
-def check_field_writers(F, res, rule):
-    """L4/L5: who may modify Parser.pos / events / tokens / tokens_raw / errors in crate syntax"""
+def check_mover(F, res, rule, path, with_fuel=True):
+    """a Parser method that moves the position: pos += 1 exactly once on a loop-free path, exactly one Event::Advance on
+    every returning path, returns only when !eof() was established (by itself), and — for C02 — refills the fuel"""
+    bump = F.fn(path)
+    name = path.rsplit("::", 1)[-1]
+    d = FL.Defs(bump)
+    nobackedge = not bump.back_edges()
+    pos_w = [e for e in EF.field_effects(bump, PA) if e["field"] == "pos" and e["how"] == "assign"]
+    ok_inc = False
+    for e in pos_w:
+        o = d.origin_rv(e["rv"], None, e["bb"], 0, ())
+        base = o
+        while base.get("k") == "field":
+            base = base["base"]
+        if base.get("k") == "rv" and base["rv"]["k"] == "bin" and base["rv"]["op"] == "AddWithOverflow":
+            a, b_ = base["rv"]["a"], base["rv"]["b"]
+            pa = op_place(a)
+            if pa is not None and EF.field_of(pa, PA) and EF.field_of(pa, PA)[1] == "pos" and \
+                    "k" in b_ and str(b_["k"].get("bits")) == "1":
+                ok_inc = True
+    res.ob(rule, "%s/pos-plus-one" % name, "Parser::%s advances pos by exactly 1, once, on a loop-free path" % name,
+           ok_inc and len(pos_w) == 1 and nobackedge and all(bump.dominates(e["bb"], r) for e in pos_w for r in bump.return_blocks()),
+           where=bump.loc(), how="pos writes: %d, AddWithOverflow(pos,1): %s, loop-free: %s" % (len(pos_w), ok_inc, nobackedge))
+    ev = event_pushes(bump)
+    push_bbs = [b for b, t in bump.calls() if short(callee(t)) == "Vec::push"]
+    res.ob(rule, "%s/one-advance" % name, "Parser::%s pushes exactly one Event::Advance on every returning path" % name,
+           ev == [("Vec::push", "Advance")] and all(bump.dominates(b, r) for b in push_bbs for r in bump.return_blocks()),
+           where=bump.loc(), how="event writes %s" % ev)
+    if name == "bump":
+        gs = FL.gates(F, bump, bump.return_blocks(), d)
+        eofg = [g for g in gs if g.get("callee") == P + "eof" and g["allowed"] == [False]]
+        res.ob(rule, "bump/asserts-not-eof", "Parser::bump returns only if eof() was false (the assert!(!self.eof()) engine P models)",
+               bool(eofg), where=bump.loc(), how="gates %s" % [FL.gate_summary(g) for g in gs])
+    if with_fuel:
+        sets = [e for e in EF.field_effects(bump, PA) if e["field"] == "fuel" and short(e.get("callee") or "") == "Cell::set"]
+        res.ob(rule, "%s/refills-fuel" % name, "Parser::%s refills the progress guard's fuel (a consumption that does not would let the guard fire "
+               "while the parser is making progress)" % name,
+               bool(sets) and all(bump.dominates(e["bb"], r) for e in sets for r in bump.return_blocks()), where=bump.loc(),
+               how="fuel.set calls: %d" % len(sets))
+
+
+def check_field_writers(F, res, rule, with_fuel=True):
+    """L4/L5: who may modify Parser.pos / events / tokens / tokens_raw / errors in crate syntax. The position is moved
+    only by Parser's own `movers` (each checked by check_mover: +1 and one Advance, together)."""
+    mv = set(movers(F))
     allowed = {
-        "pos": {P + "bump"},
-        "events": {P + "bump", P + "start_node", P + "start_node_before", P + "finish_node", P + "build_tree"},
+        "pos": mv,
+        "events": mv | {P + "start_node", P + "start_node_before", P + "finish_node", P + "build_tree"},
         "tokens": set(),
         "tokens_raw": {P + "build_tree"},
         "errors": {P + "error", P + "build_tree"},
-        "fuel": {P + "bump", P + "nth"},
+        "fuel": mv | {P + "nth", P + "bump"},
         "src": set(),
     }
     for fld, ok in sorted(allowed.items()):
+        if fld == "fuel" and not with_fuel:
+            continue
         ws = EF.writers(F, PA, fld, "syntax::")
         bad = [(f.path, e["how"], e["callee"], e["ln"]) for f, e in ws if f.path not in ok]
         res.ob(rule, "writers/Parser.%s" % fld,
@@ -218,8 +272,8 @@ def check_field_writers(F, res, rule):
            [s for s, _ in shrink] == ["pop"], where=bt.loc(), how="shrinking calls in build_tree: %s" % shrink)
     # Event::Advance / Parser literal constructed nowhere else
     adv = [(f.path, s["ln"]) for f, b, s in EF.constructions(F, EV, "Advance", "syntax::")]
-    res.ob(rule, "construct/Event::Advance", "Event::Advance is constructed only in Parser::bump",
-           [a[0] for a in adv] == [P + "bump"], where="crates/syntax/src/parser.rs", how="sites: %s" % adv)
+    res.ob(rule, "construct/Event::Advance", "Event::Advance is constructed only in the methods that move the position (one each)",
+           sorted(a[0] for a in adv) == sorted(mv), where="crates/syntax/src/parser.rs", how="sites: %s" % adv)
     lit = [(f.path, s["ln"]) for f, b, s in EF.constructions(F, PA, None, "syntax::")]
     res.ob(rule, "construct/Parser", "the Parser struct is built only in parse_module",
            [a[0] for a in lit] == ["syntax::parser::parse_module"], where="crates/syntax/src/parser.rs", how="sites: %s" % lit)
